@@ -3118,6 +3118,9 @@ func genPools(repo string, tiny bool) (string, []string) {
 			if !ok {
 				return true
 			}
+			if _, viaSrc := t.srcExt[types.ExprString(call.Fun)]; viaSrc {
+				return true // kept outside by its source text: its own parameters do not propagate
+			}
 			if sel, ok := call.Fun.(*ast.SelectorExpr); ok {
 				rt := t.typeOf(sel.X)
 				if p, ok := rt.(*types.Pointer); ok {
